@@ -11,12 +11,16 @@
 (* proposal that is still in its deposit or voting period, and it renames  *)
 (* the source in EVERY staking/distribution/bank record and index.         *)
 (*                                                                         *)
-(* Time: `now` counts RewardTick blocks (1 h each); an unbonding or        *)
-(* redelegation entry created at tick k carries slot k (= its completion   *)
-(* time minus the unbonding period); entries created at the same tick      *)
+(* Time: `now` is the block time in hours; RewardTick is a block one hour  *)
+(* later.  An unbonding or redelegation entry created at hour k carries    *)
+(* slot k and is mature when k + UnbondH <= now; entries of the same hour  *)
 (* share their completion time (and their time-queue slice) with every     *)
-(* other delegator's entries of that tick.  TimePasses jumps beyond the    *)
-(* unbonding, deposit and voting periods and runs the end blocker.         *)
+(* other delegator's entries of that hour.  TimePasses jumps beyond the    *)
+(* unbonding, deposit and voting periods and runs the end blocker in one   *)
+(* step.  BeginBlockExact / BeginBlockLater start a block whose time is    *)
+(* exactly / strictly after the completion time of the oldest pending      *)
+(* entry WITHOUT running the end blocker: transactions (Migrate, ...) run   *)
+(* in that block before EndBlock pays out what is mature.                  *)
 (***************************************************************************)
 EXTENDS Integers, Sequences, FiniteSets, TLC, Json
 
@@ -31,7 +35,9 @@ CONSTANTS Src,          \* secp256k1 accounts with a public key (legal migration
           MigFrom, MigTo,                                              \* from / to arguments of Migrate
           DelAmt, UndAmt, RedAmt,                                      \* amounts used by the staking operations
           MinDeposit,   \* total deposit (whole FX) that starts the voting period; each deposit is 1 FX
-          MaxStake, MaxTicks, MaxPasses, MaxProps, MaxGov, MaxEntries  \* exploration bounds
+          UnbondH, DepositH, VotingH,  \* unbonding, deposit and voting periods in hours (= ticks)
+          BlockOps,     \* BOOLEAN: the alphabet contains BeginBlockExact / BeginBlockLater / EndBlock
+          MaxStake, MaxTicks, MaxPasses, MaxProps, MaxGov, MaxEntries, MaxBegin  \* exploration bounds
 
 VARIABLES coins,     \* [Addr -> Nat]          FX balance
           rwd,       \* [Addr -> BOOLEAN]      holds coins of the reward denomination (second denom)
@@ -41,8 +47,9 @@ VARIABLES coins,     \* [Addr -> Nat]          FX balance
           red,       \* [Addr -> [v \in Val -> [Val \ {v} -> Seq([amt, slot])]]] redelegation entries (source, destination)
           migTo,     \* [AllAddr -> AllAddr \cup {"none"}] record "a was migrated to"
           migFrom,   \* [AllAddr -> AllAddr \cup {"none"}] record "a received the migration of"
-          props,     \* Seq([phase, proposer, dep : [Addr -> Nat], vote : [Addr -> BOOLEAN]])
-          now,       \* tick counter
+          props,     \* Seq([phase, t, proposer, dep : [Addr -> Nat], vote : [Addr -> BOOLEAN]]); t = hour at which
+                     \* the current phase began
+          now,       \* block time in hours since the epoch (TimePasses moves the epoch along with the time)
           vtok,      \* [Val -> Nat] validator tokens above genesis
           bonded, unbonding, govBal,   \* pool / module balances above genesis
           idxBad,    \* number of index entries without record / records without index entry (raw scan of the
@@ -50,12 +57,12 @@ VARIABLES coins,     \* [Addr -> Nat]          FX balance
           qBad,      \* number of entries without their maturation-queue entry / queue entries without entry
           leftover,  \* number of staking/distribution/bank keys or values still embedding a migrated source
           inv,       \* result of the SDK's registered crisis invariants
-          nstake, npass, ngov,         \* bounding counters
+          nstake, npass, ngov, ntick, nbegin,   \* bounding counters
           op
 
 base  == <<coins, rwd, deleg, pend, ubd, red, migTo, migFrom, props, now>>
 deriv == <<vtok, bonded, unbonding, govBal, idxBad, qBad, leftover, inv>>
-svars == <<base, deriv, nstake, npass, ngov>>
+svars == <<base, deriv, nstake, npass, ngov, ntick, nbegin>>
 vars  == <<svars, op>>
 
 None    == "none"
@@ -104,7 +111,7 @@ Init ==
   /\ props = <<>> /\ now = 0
   /\ vtok = ZeroV /\ bonded = 0 /\ unbonding = 0 /\ govBal = 0
   /\ idxBad = 0 /\ qBad = 0 /\ leftover = 0 /\ inv = "ok"
-  /\ nstake = 0 /\ npass = 0 /\ ngov = 0
+  /\ nstake = 0 /\ npass = 0 /\ ngov = 0 /\ ntick = 0 /\ nbegin = 0
   /\ op = Op("Init", None, None, None, None, None, 0, 0, "ok")
 
 Rej(o) == /\ op' = [o EXCEPT !.res = "rej"] /\ UNCHANGED svars
@@ -122,7 +129,7 @@ Delegate(a, v, n) ==
      /\ rwd'   = [rwd EXCEPT ![a] = @ \/ pend[a][v]]
      /\ pend'  = [pend EXCEPT ![a][v] = FALSE]
      /\ nstake' = nstake + 1
-     /\ UNCHANGED <<ubd, red, migTo, migFrom, props, now, npass, ngov>>
+     /\ UNCHANGED <<ubd, red, migTo, migFrom, props, now, npass, ngov, ntick, nbegin>>
      /\ Derived /\ op' = this
 
 Undelegate(a, v, n) ==
@@ -138,7 +145,7 @@ Undelegate(a, v, n) ==
                                         THEN [u EXCEPT ![Len(u)].amt = @ + n]
                                         ELSE Append(u, Entry(n, now))]
      /\ nstake' = nstake + 1
-     /\ UNCHANGED <<coins, red, migTo, migFrom, props, now, npass, ngov>>
+     /\ UNCHANGED <<coins, red, migTo, migFrom, props, now, npass, ngov, ntick, nbegin>>
      /\ Derived /\ op' = this
 
 Redelegate(a, v, w, n) ==
@@ -151,7 +158,7 @@ Redelegate(a, v, w, n) ==
      /\ pend'  = [pend EXCEPT ![a][v] = FALSE, ![a][w] = FALSE]
      /\ red'   = [red EXCEPT ![a][v][w] = Append(@, Entry(n, now))]
      /\ nstake' = nstake + 1
-     /\ UNCHANGED <<coins, ubd, migTo, migFrom, props, now, npass, ngov>>
+     /\ UNCHANGED <<coins, ubd, migTo, migFrom, props, now, npass, ngov, ntick, nbegin>>
      /\ Derived /\ op' = this
 
 WithdrawRewards(a, v) ==
@@ -159,17 +166,17 @@ WithdrawRewards(a, v) ==
   IN IF deleg[a][v] = 0 THEN Rej(this) ELSE
      /\ rwd'  = [rwd EXCEPT ![a] = @ \/ pend[a][v]]
      /\ pend' = [pend EXCEPT ![a][v] = FALSE]
-     /\ UNCHANGED <<coins, deleg, ubd, red, migTo, migFrom, props, now, nstake, npass, ngov>>
+     /\ UNCHANGED <<coins, deleg, ubd, red, migTo, migFrom, props, now, nstake, npass, ngov, ntick, nbegin>>
      /\ Derived /\ op' = this
 
 (* one block: +1 h, fees in the reward denomination are allocated to the bonded validators *)
 RewardTick ==
-  /\ now' = now + 1
+  /\ now' = now + 1 /\ ntick' = ntick + 1
   /\ pend' = [a \in Addr |-> [v \in Val |-> pend[a][v] \/ deleg[a][v] > 0]]
-  /\ UNCHANGED <<coins, rwd, deleg, ubd, red, migTo, migFrom, props, nstake, npass, ngov>>
+  /\ UNCHANGED <<coins, rwd, deleg, ubd, red, migTo, migFrom, props, nstake, npass, ngov, nbegin>>
   /\ Derived /\ op' = Op("RewardTick", None, None, None, None, None, 0, 0, "ok")
 
-ClosedProp == [phase |-> "closed", proposer |-> None, dep |-> [a \in Addr |-> 0], vote |-> [a \in Addr |-> FALSE]]
+ClosedProp == [phase |-> "closed", t |-> 0, proposer |-> None, dep |-> [a \in Addr |-> 0], vote |-> [a \in Addr |-> FALSE]]
 
 (* time beyond the unbonding period (and beyond deposit and voting periods) + end blocker:          *)
 (* unbonding entries pay out to the delegator that holds them, redelegation entries complete, open   *)
@@ -178,10 +185,49 @@ TimePasses ==
   /\ coins' = [a \in Addr |-> coins[a] + UbdOf(ubd, a)
                   + SumSet(1..Len(props), [p \in 1..Len(props) |-> IF Open(props[p].phase) THEN props[p].dep[a] ELSE 0])]
   /\ ubd' = [a \in Addr |-> NoSeqV] /\ red' = [a \in Addr |-> NoSeqVV]
-  /\ props' = [p \in 1..Len(props) |-> IF Open(props[p].phase) THEN ClosedProp ELSE props[p]]
+  /\ props' = IF props = <<>> THEN <<>> ELSE [p \in 1..Len(props) |-> IF Open(props[p].phase) THEN ClosedProp ELSE props[p]]
   /\ npass' = npass + 1
-  /\ UNCHANGED <<rwd, deleg, pend, migTo, migFrom, now, nstake, ngov>>
+  /\ UNCHANGED <<rwd, deleg, pend, migTo, migFrom, now, nstake, ngov, ntick, nbegin>>
   /\ Derived /\ op' = Op("TimePasses", None, None, None, None, None, 0, 0, "ok")
+
+(* --- block boundaries without the end blocker, and the end blocker on its own ---------------------- *)
+Mature(e, t)   == e.slot + UnbondH <= t
+KeepYoung(s, t) == SelectSeq(s, LAMBDA e : ~Mature(e, t))
+MatureAmt(s, t) == SumAmt(SelectSeq(s, LAMBDA e : Mature(e, t)))
+AllSlots == UNION { {ubd[a][v][i].slot : i \in 1..Len(ubd[a][v])}
+                     \cup UNION { {red[a][v][w][i].slot : i \in 1..Len(red[a][v][w])} : w \in Val \ {v} }
+                   : a \in Addr, v \in Val }
+YoungSlots == {k \in AllSlots : k + UnbondH > now}
+MinOf(S) == CHOOSE x \in S : \A y \in S : x <= y
+Expired(pr, t) == \/ pr.phase = "deposit" /\ pr.t + DepositH <= t
+                  \/ pr.phase = "voting" /\ pr.t + VotingH <= t
+
+(* a new block whose time is exactly the completion time of the oldest entry that is not yet mature *)
+BeginBlockExact ==
+  LET this == Op("BeginBlockExact", None, None, None, None, None, 0, 0, "ok")
+  IN IF YoungSlots = {} THEN Rej(this) ELSE
+     /\ now' = MinOf(YoungSlots) + UnbondH
+     /\ nbegin' = nbegin + 1
+     /\ UNCHANGED <<coins, rwd, deleg, pend, ubd, red, migTo, migFrom, props, nstake, npass, ngov, ntick>>
+     /\ Derived /\ op' = this
+
+(* a new block strictly after every completion time (and after every deposit / voting period) *)
+BeginBlockLater ==
+  /\ now' = now + UnbondH + 2
+  /\ nbegin' = nbegin + 1
+  /\ UNCHANGED <<coins, rwd, deleg, pend, ubd, red, migTo, migFrom, props, nstake, npass, ngov, ntick>>
+  /\ Derived /\ op' = Op("BeginBlockLater", None, None, None, None, None, 0, 0, "ok")
+
+(* the end blocker at the current block time: mature entries are paid to the delegator that holds them and *)
+(* removed, proposals whose period is over end and refund                                                 *)
+EndBlock ==
+  /\ coins' = [a \in Addr |-> coins[a] + SumSet(Val, [v \in Val |-> MatureAmt(ubd[a][v], now)])
+                  + SumSet(1..Len(props), [p \in 1..Len(props) |-> IF Expired(props[p], now) THEN props[p].dep[a] ELSE 0])]
+  /\ ubd' = [a \in Addr |-> [v \in Val |-> KeepYoung(ubd[a][v], now)]]
+  /\ red' = [a \in Addr |-> [v \in Val |-> [w \in Val \ {v} |-> KeepYoung(red[a][v][w], now)]]]
+  /\ props' = IF props = <<>> THEN <<>> ELSE [p \in 1..Len(props) |-> IF Expired(props[p], now) THEN ClosedProp ELSE props[p]]
+  /\ UNCHANGED <<rwd, deleg, pend, migTo, migFrom, now, nstake, npass, ngov, ntick, nbegin>>
+  /\ Derived /\ op' = Op("EndBlock", None, None, None, None, None, 0, 0, "ok")
 
 ---------------------------------------------------------------------------
 (* governance (MsgSubmitProposal with an initial deposit of 1 FX, MsgDeposit of 1 FX, MsgVote) *)
@@ -190,10 +236,10 @@ SubmitProposal(a) ==
   LET this == Op("SubmitProposal", a, None, None, None, None, 0, 0, "ok")
   IN IF coins[a] < 1 THEN Rej(this) ELSE
      /\ coins' = [coins EXCEPT ![a] = @ - 1]
-     /\ props' = Append(props, [phase |-> IF MinDeposit <= 1 THEN "voting" ELSE "deposit", proposer |-> a,
+     /\ props' = Append(props, [phase |-> IF MinDeposit <= 1 THEN "voting" ELSE "deposit", t |-> now, proposer |-> a,
                                 dep |-> [x \in Addr |-> IF x = a THEN 1 ELSE 0], vote |-> [x \in Addr |-> FALSE]])
      /\ ngov' = ngov + 1
-     /\ UNCHANGED <<rwd, deleg, pend, ubd, red, migTo, migFrom, now, nstake, npass>>
+     /\ UNCHANGED <<rwd, deleg, pend, ubd, red, migTo, migFrom, now, nstake, npass, ntick, nbegin>>
      /\ Derived /\ op' = this
 
 Deposit(a, p) ==
@@ -203,9 +249,9 @@ Deposit(a, p) ==
      LET nd == [props[p].dep EXCEPT ![a] = @ + 1]
          ph == IF props[p].phase = "deposit" /\ SumSet(Addr, nd) >= MinDeposit THEN "voting" ELSE props[p].phase
      IN /\ coins' = [coins EXCEPT ![a] = @ - 1]
-        /\ props' = [props EXCEPT ![p].dep = nd, ![p].phase = ph]
+        /\ props' = [props EXCEPT ![p].dep = nd, ![p].phase = ph, ![p].t = IF ph # props[p].phase THEN now ELSE @]
         /\ ngov' = ngov + 1
-        /\ UNCHANGED <<rwd, deleg, pend, ubd, red, migTo, migFrom, now, nstake, npass>>
+        /\ UNCHANGED <<rwd, deleg, pend, ubd, red, migTo, migFrom, now, nstake, npass, ntick, nbegin>>
         /\ Derived /\ op' = this
 
 Vote(a, p) ==
@@ -214,7 +260,7 @@ Vote(a, p) ==
   IN IF ~okk THEN Rej(this) ELSE
      /\ props' = [props EXCEPT ![p].vote[a] = TRUE]
      /\ ngov' = ngov + 1
-     /\ UNCHANGED <<coins, rwd, deleg, pend, ubd, red, migTo, migFrom, now, nstake, npass>>
+     /\ UNCHANGED <<coins, rwd, deleg, pend, ubd, red, migTo, migFrom, now, nstake, npass, ntick, nbegin>>
      /\ Derived /\ op' = this
 
 ---------------------------------------------------------------------------
@@ -242,7 +288,7 @@ Migrate(f, t, s) ==
      /\ ubd'   = [ubd EXCEPT ![t] = ubd[f], ![f] = NoSeqV]
      /\ red'   = [red EXCEPT ![t] = red[f], ![f] = NoSeqVV]
      /\ migTo' = [migTo EXCEPT ![f] = t] /\ migFrom' = [migFrom EXCEPT ![t] = f]
-     /\ UNCHANGED <<props, now, nstake, npass, ngov>>
+     /\ UNCHANGED <<props, now, nstake, npass, ngov, ntick, nbegin>>
      /\ Derived /\ op' = this
 
 Forger(t) == CHOOSE x \in Tgt : x # t
@@ -255,6 +301,7 @@ Next ==
   \/ \E a \in RedelegateBy, v \in Val : \E w \in Val \ {v} : Redelegate(a, v, w, RedAmt)
   \/ \E a \in WithdrawBy, v \in OpVal : WithdrawRewards(a, v)
   \/ RewardTick \/ TimePasses
+  \/ (BlockOps /\ (BeginBlockExact \/ BeginBlockLater \/ EndBlock))
   \/ \E a \in GovBy : SubmitProposal(a)
   \/ \E a \in GovBy, p \in 1..MaxProps : Deposit(a, p) \/ Vote(a, p)
   \/ \E f \in MigFrom, t \in MigTo : \E s \in {t, Forger(t)} : Migrate(f, t, s)
@@ -330,6 +377,16 @@ A_C14_TargetActsAsSource ==
         /\ \A a \in Addr : /\ coins'[a] >= coins[a] + UbdOf(ubd, a)
                            /\ ubd'[a] = NoSeqV /\ red'[a] = NoSeqVV
 C14_TargetActsAsSource == [][A_C14_TargetActsAsSource]_vars
+\* the end blocker pays every mature entry to the address that holds it (source before, target after a migration),
+\* removes exactly the mature entries and never fails
+A_C14_MaturedFundsArrive ==
+  op'.name = "EndBlock" =>
+     /\ op'.res = "ok"
+     /\ \A a \in Addr :
+           /\ coins'[a] >= coins[a] + SumSet(Val, [v \in Val |-> MatureAmt(ubd[a][v], now)])
+           /\ \A v \in Val : /\ ubd'[a][v] = KeepYoung(ubd[a][v], now)
+                              /\ \A w \in Val \ {v} : red'[a][v][w] = KeepYoung(red[a][v][w], now)
+C14_MaturedFundsArrive == [][A_C14_MaturedFundsArrive]_vars
 
 \* --- raw-store oracles carried in the projected state
 C14_NoLeftover == leftover = 0
@@ -349,7 +406,7 @@ C14_SourceEmpty ==
 
 ---------------------------------------------------------------------------
 View == svars
-Bounded == /\ nstake' <= MaxStake /\ now' <= MaxTicks /\ npass' <= MaxPasses
+Bounded == /\ nstake' <= MaxStake /\ ntick' <= MaxTicks /\ npass' <= MaxPasses /\ nbegin' <= MaxBegin
            /\ Len(props') <= MaxProps /\ ngov' <= MaxGov
            /\ \A a \in Addr, v \in Val : /\ Len(ubd'[a][v]) <= MaxEntries
                                          /\ \A w \in Val \ {v} : Len(red'[a][v][w]) <= MaxEntries
